@@ -195,6 +195,15 @@ def run(ctx):
     import fickling.fickle as fk
     maxlen = 3 if ctx.quick else 4
     hists = design(ctx, maxlen)
+    budget = 200000
+    if len(hists) > budget:
+        # the alphabet of edits grew with every round; the histories of full length are sampled (seeded), every shorter one is kept
+        hists.sort(key=lambda h: (len(h), h))
+        short = [h for h in hists if len(h) < maxlen]
+        full = [h for h in hists if len(h) == maxlen]
+        ctx.notes.append(f"{len(hists)} histories generated by TLC; all {len(short)} of length < {maxlen} and a seeded sample of "
+                         f"{budget - len(short)} of the {len(full)} of length {maxlen} are replayed")
+        hists = short + ctx.rng.sample(full, max(0, budget - len(short)))
     bs = bases(ctx, 6 if ctx.quick else 40)
     records = []
     per = 2 if ctx.quick else 2
